@@ -120,6 +120,50 @@ Arguments w_results {text key vec} r.
 Arguments w_store {text key vec} r.
 Arguments w_calls {text key vec} r.
 
+(* ---- several indexes alive in one process ----------------------------------------------
+   Each BasicEmbeddingsIndex has its own key generator, its own embedding model and a cache
+   configuration; EmbeddingsCache.from_config(self.cache_config) resolves the configuration to
+   a store: `ix_sid` names that store (two filesystem configurations with the same cache_dir are
+   the same store; different cache_dirs are different stores).  A call of index ix reads and
+   writes only the store its own configuration names. *)
+Section Multi.
+  Variables text key vec : Type.
+  Variable text_eq_dec : forall a b : text, {a = b} + {a <> b}.
+  Variable key_eq_dec : forall a b : key, {a = b} + {a <> b}.
+
+  Record index := mkIndex {
+    ix_kg : text -> key;       (* cache_config.key_generator *)
+    ix_emb : text -> vec;      (* the index's embedding model *)
+    ix_sid : nat               (* the store cache_config.store / store_config resolve to *)
+  }.
+
+  Definition stores := nat -> store key vec.
+
+  Definition sset (S : stores) (sid : nat) (s : store key vec) : stores :=
+    fun j => if j =? sid then s else S j.
+
+  Definition mcall (S : stores) (ix : index) (texts : list text) : list (option vec) * stores :=
+    let r := wrapper text_eq_dec key_eq_dec (ix_kg ix) true (map (ix_emb ix)) (S (ix_sid ix)) texts in
+    (w_results r, sset S (ix_sid ix) (w_store r)).
+
+  Fixpoint mrun (S : stores) (calls : list (index * list text)) : stores :=
+    match calls with
+    | [] => S
+    | (ix, texts) :: rest => mrun (snd (mcall S ix texts)) rest
+    end.
+
+  Definition no_stores : stores := fun _ => [].
+End Multi.
+
+Arguments mkIndex {text key vec} ix_kg ix_emb ix_sid.
+Arguments ix_kg {text key vec} i.
+Arguments ix_emb {text key vec} i.
+Arguments ix_sid {text key vec} i.
+Arguments sset {key vec} S sid s.
+Arguments mcall {text key vec} text_eq_dec key_eq_dec S ix texts.
+Arguments mrun {text key vec} text_eq_dec key_eq_dec S calls.
+Arguments no_stores {key vec}.
+
 (* sanity: texts = nat, key = nat, vec = nat, emb t = 10 + t *)
 Example wrapper_dups_and_hits :
   let model := map (fun t => 10 + t) in
